@@ -20,4 +20,14 @@ for dl in (5, 120, 124, 125, 126, 127, 128, 130, 250, 253, 254, 255, 256):
                         "tier": "quick" if dl in (124, 126, 127, 128, 254, 256) else "thorough",
                         "title": "x509_ext_to_der_ex: dry-run length = written length, outer header consistent, parses back",
                         "bounds": "extension content of %d bytes (havocked), criticality absent/false/true" % dl})
+OBLIGATIONS += [
+    {"id": "C15.validity_to_der", "harness": "harness/C15/encoders.c", "entry": "h_validity_to_der", "units": ["x509_cer.c", "asn1.c"], "defs": ["-DVALIDITY"],
+     "remove": {"asn1.c": ["asn1_utc_time_to_der_ex", "asn1_generalized_time_to_der_ex"], "x509_cer.c": ["x509_cert_print"]}, "unwind": 8, "timeout": 600,
+     "title": "x509_validity_to_der: dry run = written, SEQUENCE length = both time encodings, notBefore then notAfter, UTCTime through 2049 / GeneralizedTime from 2050 for each bound independently",
+     "bounds": "all notBefore / notAfter below 2^38 s (incl. windows across the 2049/2050 switch)", "stubs": ["UTCTime / GeneralizedTime writers: abstract fixed-size writers that log their argument (the writers themselves: C14.time_*)"]},
+    {"id": "C15.crl_entry_exts_to_der", "harness": "harness/C15/encoders.c", "entry": "h_crl_entry_exts", "units": ["x509_crl.c", "asn1.c"], "defs": ["-DCRLENTRY"],
+     "remove": {"x509_crl.c": ["x509_crl_reason_ext_to_der", "x509_invalidity_date_ext_to_der", "x509_cert_issuer_ext_to_der", "x509_crl_print", "x509_crl_entry_exts_print", "x509_revoked_cert_print", "x509_revoked_certs_print", "x509_crl_exts_print", "x509_tbs_crl_print"]}, "unwind": 8, "timeout": 600,
+     "title": "x509_crl_entry_exts_to_der: each present element (reason 0..10, invalidity date, certificate issuer) is emitted, nothing exactly when all are absent, dry run = written",
+     "bounds": "reason -1..10, invalidity date present / absent, certificate issuer present / absent", "stubs": ["the three element encoders: abstract fixed-size writers"]},
+]
 NOTE = "C15: certificates, requests, CRLs."
